@@ -783,6 +783,8 @@ pub enum Layout {
   LineComments,
   /// every white space character of the FEEL grammar (rules 61, 62) in turn, also before the first and after the last token
   EveryWhiteSpace,
+  /// a run of 16 white space characters (blanks, a line break, a tab) between all tokens, before the first and after the last
+  LongRuns,
 }
 
 /// white space characters of the FEEL grammar
@@ -835,6 +837,9 @@ pub fn join(toks: &[Tok], layout: Layout) -> String {
   if matches!(layout, Layout::EveryWhiteSpace) {
     out.push(FEEL_WHITE_SPACE[rot % FEEL_WHITE_SPACE.len()]);
   }
+  if matches!(layout, Layout::LongRuns) {
+    out.push_str("\n               ");
+  }
   for (i, t) in toks.iter().enumerate() {
     if i > 0 {
       let prev = &toks[i - 1];
@@ -849,6 +854,7 @@ pub fn join(toks: &[Tok], layout: Layout) -> String {
         Layout::NewlinesTabs => out.push_str(if i % 2 == 0 { "\n\t" } else { " \n" }),
         Layout::BlockComments => out.push_str(" /* c 1 + ( */ "),
         Layout::LineComments => out.push_str(" // c ) \"\n "),
+        Layout::LongRuns => out.push_str(if i % 2 == 0 { "             \n\t " } else { "\n               " }),
         Layout::EveryWhiteSpace => {
           // U+1680, U+180E and U+FEFF are white space by rule 61 and name characters by rule 30 at the same time: directly after a
           // name the grammar is ambiguous (the lexer continues the name), so another character is used there
@@ -859,6 +865,9 @@ pub fn join(toks: &[Tok], layout: Layout) -> String {
       }
     }
     out.push_str(&t.text);
+  }
+  if matches!(layout, Layout::LongRuns) {
+    out.push_str("                \n");
   }
   if matches!(layout, Layout::EveryWhiteSpace) {
     let ch = FEEL_WHITE_SPACE[(rot + toks.len()) % FEEL_WHITE_SPACE.len()];
